@@ -17,7 +17,7 @@ BIN = os.path.join(TARGET, "release", "symx")
 ENV = dict(os.environ, CARGO_NET_OFFLINE="true", CARGO_TERM_COLOR="never", CARGO_TARGET_DIR=TARGET)
 ENV.pop("RUSTFLAGS", None)
 Z3 = os.environ.get("PV_Z3", "/usr/bin/z3")
-CAP = {"quick": int(os.environ.get("PV_SCAP_QUICK", "120")), "thorough": int(os.environ.get("PV_SCAP_THOROUGH", "1800"))}
+CAP = {"quick": int(os.environ.get("PV_SCAP_QUICK", "60")), "thorough": int(os.environ.get("PV_SCAP_THOROUGH", "1800"))}
 JOBS = int(os.environ.get("PV_JOBS", "12"))
 
 
@@ -268,6 +268,16 @@ def run_z3(script, cap):
     return out, time.time() - t0
 
 
+def run_staged(pair, cap):
+    """unsat with fewer axioms is unsat with more: try the cheap stage first."""
+    first, second = pair
+    out, t = run_z3(first, cap if second is None else max(10, cap // 4))
+    if second is None or (out.strip().splitlines() or [""])[0].strip() == "unsat":
+        return out, t
+    out2, t2 = run_z3(second, cap)
+    return out2, t + t2
+
+
 def replay(name, vals, scale=0.9):
     p = subprocess.run([BIN, "replay", name, str(scale)] + [repr(float(v)) for v in vals], capture_output=True, text=True)
     if p.returncode != 0:
@@ -320,12 +330,14 @@ def decide_obligation(ob, tier, pool=None):
             results[gname] = ("pass", "decided by hash-consing / constant folding (no solver query)", None)
         else:
             pending.append((gi, gname))
-    axioms, ax_names = AX.ground_axioms(enc, ob)
+    axioms, ext_axioms, ax_names = AX.ground_axioms(enc, ob)
     hdr = enc.header() + AX.declarations(enc.used_uf) + enc.lines + axioms
+    hdr_ext = hdr + ext_axioms
     os.makedirs(os.path.join(C.BUILD, "smt"), exist_ok=True)
     mapper = pool.map if pool is not None else map
     # phase 1: which paths are feasible at all (also the vacuity check)
-    feas_scripts = [query_script(enc, ob, p, hdr) for p in ob["paths"]]
+    # (with ALL axioms: a satisfiable answer also shows the axiom instances are jointly consistent on this path)
+    feas_scripts = [query_script(enc, ob, p, hdr_ext) for p in ob["paths"]]
     feas_out = list(mapper(lambda sc: run_z3(sc, min(cap, 60)), feas_scripts))
     o.queries = len(feas_out)
     o.solver_s = sum(t for _, t in feas_out)
@@ -343,11 +355,23 @@ def decide_obligation(ob, tier, pool=None):
             live.append(p)
     # phase 2: every feasible path x pending goal
     jobs = [(p, gi, gname) for p in live for gi, gname in pending if nodes[p["goals"][gi][1]] != ["bconst", True]]
-    scripts = [query_script(enc, ob, p, hdr, p["goals"][gi][1]) for p, gi, gname in jobs]
+    # stage 1: basic axioms; stage 2 (only if stage 1 is not unsat and extended axioms exist): + trigonometric relations
+    scripts = [(query_script(enc, ob, p, hdr, p["goals"][gi][1]),
+                query_script(enc, ob, p, hdr_ext, p["goals"][gi][1]) if ext_axioms else None) for p, gi, gname in jobs]
     if scripts:
         with open(os.path.join(C.BUILD, "smt", ob["name"] + ".smt2"), "w") as f:
-            f.write(scripts[0])
-    outs = list(mapper(lambda sc: run_z3(sc, cap), scripts))
+            f.write(scripts[0][1] or scripts[0][0])
+    # chunks of solver processes; give up on the obligation (undecided, never "pass") after 3 capped-out queries or
+    # when the obligation's wall budget is used up
+    outs, t_start, timeouts, chunk = [], time.time(), 0, max(1, JOBS)
+    budget = cap * 4
+    for k in range(0, len(scripts), chunk):
+        if timeouts >= 3 or time.time() - t_start > budget:
+            outs += [("timeout (obligation budget exhausted)", 0.0)] * (len(scripts) - len(outs))
+            break
+        part = list(mapper(lambda sc: run_staged(sc, cap), scripts[k:k + chunk]))
+        timeouts += sum(1 for out, _ in part if (out.strip().splitlines() or ["timeout"])[0].strip() not in ("sat", "unsat"))
+        outs += part
     o.queries += len(outs)
     o.solver_s += sum(t for _, t in outs)
     goal_res = {g: [] for _, g in pending}
